@@ -3,7 +3,11 @@
 (* The net/http ResponseWriter contract as a state machine (property C36).  *)
 (*                                                                         *)
 (* A handler PROGRAM is a sequence of calls from the menu Ops:               *)
-(*   wh<c>   w.WriteHeader(c)        c in {103, 200, 204, 404, 500}         *)
+(*   wh<c>   w.WriteHeader(c)        c in {100, 101, 102, 103, 199, 200,    *)
+(*                                   204, 304, 404, 500}: every class of    *)
+(*                                   status -- interim 1xx, 101 (which is   *)
+(*                                   FINAL: it commits), success, the two   *)
+(*                                   body-less finals 204/304, errors       *)
 (*   xa1/xa2 w.Header().Add("X-A", "v1" / "v2")                             *)
 (*   ct      w.Header().Set("Content-Type", "application/x-c36")            *)
 (*   wa/wb   w.Write("a") / w.Write("b")                                     *)
@@ -29,10 +33,13 @@ EXTENDS Integers, Sequences, FiniteSets, TLC
 
 CONSTANTS MaxLen     \* longest program
 
-Codes == {103, 200, 204, 404, 500}
-Ops == {"wh103", "wh200", "wh204", "wh404", "wh500", "xa1", "xa2", "ct", "wa", "wb", "we", "fl"}
-CodeOf(op) == CASE op = "wh103" -> 103 [] op = "wh200" -> 200 [] op = "wh204" -> 204
+Codes == {100, 101, 102, 103, 199, 200, 204, 304, 404, 500}
+WhOps == {"wh100", "wh101", "wh102", "wh103", "wh199", "wh200", "wh204", "wh304", "wh404", "wh500"}
+Ops == WhOps \cup {"xa1", "xa2", "ct", "wa", "wb", "we", "fl"}
+CodeOf(op) == CASE op = "wh100" -> 100 [] op = "wh101" -> 101 [] op = "wh102" -> 102 [] op = "wh103" -> 103
+                [] op = "wh199" -> 199 [] op = "wh200" -> 200 [] op = "wh204" -> 204 [] op = "wh304" -> 304
                 [] op = "wh404" -> 404 [] op = "wh500" -> 500 [] OTHER -> 0
+Interim(c) == c >= 100 /\ c <= 199 /\ c # 101
 
 VARIABLES
   prog,       \* the calls made so far
@@ -59,7 +66,7 @@ Commit(c) == IF committed THEN [st |-> status, xa |-> sxa, ct |-> sct]
 
 WriteHeader(c) ==
   IF committed THEN UNCHANGED <<committed, status, sxa, sct, info>>       \* superfluous: ignored
-  ELSE IF c >= 100 /\ c <= 199 /\ c # 101 THEN                             \* informational
+  ELSE IF Interim(c) THEN                                                  \* informational
     /\ info' = Append(info, c) /\ UNCHANGED <<committed, status, sxa, sct>>
   ELSE
     /\ committed' = TRUE /\ status' = c /\ sxa' = hxa /\ sct' = hct /\ UNCHANGED info
@@ -95,12 +102,13 @@ Final ==
   LET k == Commit(200)
       sn == IF headOut THEN sniffed ELSE (~k.ct /\ body # <<>> /\ BodyAllowed(k.st)) IN
   [ status |-> k.st, xa |-> k.xa,
-    ct |-> IF k.ct THEN "set" ELSE IF sn THEN "sniff" ELSE "none",
+    \* a 304 response never carries Content-Type (net/http suppresses it, RFC 9110 15.4.5)
+    ct |-> IF k.st = 304 THEN "none" ELSE IF k.ct THEN "set" ELSE IF sn THEN "sniff" ELSE "none",
     body |-> body, info |-> info ]
 
 ----------------------------------------------------------------------------
 \* meta-properties of the contract
-FinalStatusInv == Final.status \in Codes \ {103}           \* a 1xx is never the final status
+FinalStatusInv == Final.status \in Codes /\ ~Interim(Final.status)   \* an interim 1xx is never the final status (101 can be)
 CommitStable == committed => (status # 0 /\ Final.status = status /\ Final.xa = sxa)
 NoBodyInv == ~BodyAllowed(Final.status) => Final.body = <<>>
 SnapshotInv == committed => Len(sxa) <= Len(hxa)
